@@ -31,7 +31,10 @@ RULE = ('live: one case = one (attribute declaration, value, stage) triple writt
         'attributes the second value is a minimal change of the stored one: +-1..4 ulps / relative 1e-15..1e-9 / sign flip for '
         'floats, one unit at or below the scale / precision for Decimal and time types, +-n for ints, one character / byte / item '
         'more, less or different for text, bytes, Json and arrays, or the same value again). Declarations also draw lazy=True '
-        '(3 in 10; the column is then loaded by its own SELECT on first access) and float tolerance (default, None, 1e-6). Values come from the '
+        '(3 in 10; the column is then loaded by its own SELECT on first access) and float tolerance (default, None, 1e-6). Half of the '
+        'str/LongStr attributes of a wide entity hold the textual form of a sibling attribute of another type in the same row (ISO '
+        'date/time/datetime text truncated to the declared precision, compact JSON of Json/array values, str()/repr()/hex of the '
+        'others; siblings that SQLite keeps as text are preferred 3:1), when it fits max_len. Values come from the '
         'full domain of the type plus an explicit list of extremes (size bounds, int64 bounds, +-0.0, subnormal/huge/inf floats, '
         'Decimal at and beyond scale and at full precision, year 1/999/9999, microseconds, negative and huge timedeltas, empty '
         'and non-UTF8 bytes, NUL/quote/non-BMP text, nested Json with unicode keys, empty arrays). pure: one case = one '
@@ -39,7 +42,7 @@ RULE = ('live: one case = one (attribute declaration, value, stage) triple writt
         'unchanged in the naive SQL type: fraction digits at/beyond scale or full precision, non-integer/huge/signed-zero '
         'float, |int| >= 2**31 or at a size bound, non-ASCII/control/quote/empty/padded text, empty/non-UTF8/NUL bytes, year < 1000 '
         'or >= 9000, non-zero microseconds, negative or >= 10000-day timedelta, any UUID, nested/non-ASCII/float Json, empty or '
-        'extreme arrays; every update to a minimal change of the stored value. Distinct by (kind, options, Required/Optional, '
+        'extreme arrays; every update to a minimal change of the stored value; every text that echoes a sibling. Distinct by (kind, options, Required/Optional, '
         'lazy, value, stage, previous value for minimal changes) resp. (codec, value). Float NaN, '
         'timezone-aware datetimes, top-level Json scalars and Decimal values wider than the declared precision are not generated.')
 ASSUMPTIONS = ['SQLite 3.40 live through pony.orm.dbproviders.sqlite (in-memory; 1 in 16 examples on a file database with a new '
@@ -51,7 +54,7 @@ ASSUMPTIONS = ['SQLite 3.40 live through pony.orm.dbproviders.sqlite (in-memory;
                'from the MySQL manual']
 SHARDS = {'quick': 4, 'thorough': 16}
 MIN_EVALS = {'quick': 8000, 'thorough': 150000}
-CLASS_FLOORS = dict([('k:' + k, 0.008) for k in lib.KINDS] + [('codec', 0.05), ('stage:update', 0.1), ('lazy', 0.05),
+CLASS_FLOORS = dict([('k:' + k, 0.008) for k in lib.KINDS] + [('codec', 0.05), ('stage:update', 0.1), ('lazy', 0.05), ('text_echo', 0.01),
                                                                    ('update_near', 0.02)])
 
 _counter = itertools.count(1)
@@ -74,6 +77,12 @@ def _account(ctx, specs, ex, evaluated, outcomes, mode):
             nt = lib.nontrivial(s['kind'], s['opts'], value)
         classes = ['k:' + s['kind'], 'stage:' + stage, mode]
         if s.get('lazy'): classes.append('lazy')
+        if s.get('echo'):
+            # a text attribute holding the textual form of a sibling attribute's value (same row, other column type)
+            classes.append('text_echo')
+            classes.append('text_echo:' + s['echo'])
+            key['e'] = s['echo']
+            nt = True
         if stage == 'update' and s.get('v2_mode') == 'near':
             # the stored row already holds a value that differs minimally (or not at all) from the one assigned
             classes.append('update_near')
@@ -87,7 +96,13 @@ def _account(ctx, specs, ex, evaluated, outcomes, mode):
                          'stage': stage, 'value': lib.enc(s['kind'], value), 'seen_after_flush': seen.show(),
                          'previous': lib.enc(s['kind'], s['v1']) if stage == 'update' else None})
     for o in outcomes:
-        ctx.fail(lib.case_of(specs[o['i']], ex['upd_same'], ex['file_db'], o), o['message'])
+        i = o['i']
+        case = lib.case_of(specs[i], ex['upd_same'], ex['file_db'], o)
+        if len(specs) > 1 and ctx.excluded_by(case, o['message']) is None and not replay(case):
+            # not reproducible with this attribute alone: the failure depends on the sibling columns -> keep them in the case
+            case = lib.case_of(specs[i], ex['upd_same'], ex['file_db'], o, before=specs[:i], after=specs[i + 1:])
+            ctx.count('failure_needs_siblings')
+        ctx.fail(case, o['message'])
 
 
 def _filename(ctx, ex):
@@ -198,6 +213,9 @@ def replay(case):
             return 'codec %s raised %s: %s on %r' % (case['codec'], type(exc).__name__, exc, case['value'])
         return msg
     spec = lib.spec_from_json(case)
+    before = [lib.spec_from_json(d) for d in (case.get('with') or {}).get('before', [])]
+    after = [lib.spec_from_json(d) for d in (case.get('with') or {}).get('after', [])]
+    specs, me = before + [spec] + after, len(before)
     tmp = None
     filename = None
     if case.get('file_db'):
@@ -208,12 +226,14 @@ def replay(case):
         filename = os.path.join(tmp, 'replay.sqlite')
     try:
         try:
-            evaluated, outcomes = lib.evaluate([spec], bool(case.get('upd_same')), filename)
+            evaluated, outcomes = lib.evaluate(specs, bool(case.get('upd_same')), filename)
         except lib.Rejected:
             return None
         except lib.Unattributed as u:
             return _unattributed_message(spec, u)
         for o in outcomes:
+            if o['i'] != me:
+                continue
             if case.get('stage') not in (None, o['stage']):
                 continue
             if case.get('check') not in (None, 'error', o['check']):
